@@ -109,6 +109,19 @@ if not hasattr(cherrypy.tools, 'c10t0'):
     cherrypy.tools.c10t3 = _cptools.Tool('before_finalize', _tool_final, priority=60)
 
 
+class C10MW(object):
+    """Pass-through WSGI middleware some generated applications put into their own pipeline."""
+    c10name = 'C10MW'
+
+    def __init__(self, nextapp, tag=None):
+        self.nextapp, self.tag = nextapp, tag
+
+    def __call__(self, environ, start_response):
+        prev, mine = environ.get('c10.mw', ''), '|' + str(self.tag)
+        environ['c10.mw'] = prev if prev.endswith(mine) else prev + mine     # an internal redirect passes here again
+        return self.nextapp(environ, start_response)
+
+
 def _tb_tool(tag='tb'):
     cherrypy.serving.request.c10_tb = str(tag)
 
@@ -459,6 +472,7 @@ def seen_tokens():
         if 'token' in p:
             out['params'] = p['token']
         out['resp'] = getattr(cherrypy.response, 'c10_owner', None)
+        out['mw'] = 'mw' + str(cherrypy.request.wsgi_environ.get('c10.mw'))
     except Exception as e:     # a broken thread-local shows up as an observation, not a harness error
         out['error'] = type(e).__name__
     return out
@@ -615,6 +629,7 @@ class Site(object):
         self.desc = desc
         self.apps = []
         self.app_meta = []
+        confs = []
         for ad in desc['apps']:
             nodes = {}
             for p in TREE_PATHS:
@@ -637,14 +652,20 @@ class Site(object):
             if ad.get('wsgi_tag'):
                 root['wsgi.c10mw.tag'] = ad['wsgi_tag']
                 root['log.c10_tag'] = ad['wsgi_tag']
+            if ad.get('mw'):
+                root['wsgi.pipeline'] = [('c10mw', C10MW)]
             app = _cptree.Application(nodes['/'], ad['script_name'])
             if ad.get('toolbox'):
                 tb = _cptools.Toolbox(ad['toolbox'])
                 tb.probe = _cptools.Tool('before_handler', _tb_tool, priority=52)
                 app.toolboxes = dict(app.toolboxes)       # instance-level; the class-level dict is shared by design
                 app.toolboxes[ad['toolbox']] = tb
-            app.merge(conf)
             self.apps.append(app)
+            confs.append(conf)
+        # all applications exist before any of them is configured (as with tree.mount + later config updates)
+        for app, conf in zip(self.apps, confs):
+            app.merge(conf)
+        for app in self.apps:
             self.app_meta.append({'config': canon(app.config), 'namespaces': sorted(app.namespaces),
                                   'pipeline': canon(app.wsgiapp.pipeline), 'wsgiconfig': canon(app.wsgiapp.config),
                                   'log_tag': getattr(app.log, 'c10_tag', None)})
